@@ -50,6 +50,12 @@ def pull_async(
         The request we're fulfilling.
     """
 
+    # Before we were queued, NodeIO reserved space for this file.
+    # Automatically release bytes on task completion.  This must be
+    # registered before anything that can return early or fail (including
+    # database access), or the reservation leaks.
+    task.on_cleanup(io.release_bytes, args=(req.file.size_b,))
+
     comp_metric = metrics.by_name("requests_completed").bind(
         type="copy",
         node=req.node_from.name,
@@ -74,10 +80,6 @@ def pull_async(
         ).execute()
         comp_metric.inc(result="duplicate")
         return
-
-    # Before we were queued, NodeIO reserved space for this file.
-    # Automatically release bytes on task completion
-    task.on_cleanup(io.release_bytes, args=(req.file.size_b,))
 
     # We know dest is local, so if source is too, this is a local transfer
     local = req.node_from.local
